@@ -23,7 +23,7 @@ TRUSTED = (
     "translator tools/translate_taskid.py (fail-closed ast whitelist: if/return trees over calc_type comparisons, "
     "params[1] ==/!= params[1], numpy.array_equal of params[0] / params[1] / params, not/and/or; strain[:, idx] / "
     "numpy.sum(strain, axis=1) with + - * /; hash(..) ^ hash(..) of calc_type / params[n] / tuple(params[n].flatten()"
-    ".tolist())) and its reading of the atoms (tools/tie_taskid/TaskIdTieBase.v: an atom evaluated where it has no "
+    ".tolist()), leading single-assignment locals that every return reads, dropped else after return) and its reading of the atoms (tools/tie_taskid/TaskIdTieBase.v: an atom evaluated where it has no "
     "meaning is an error; numpy.array_equal true => equal tuples of Python floats => equal hashes); only "
     "pattern-checked (glue): NamedTuple fields (calc_type, params), create = cls(key.calc_type, "
     "cls._make_param_by_strain_key(strain, key)), key.s / key.is_shear / key.calc_type are those of voigt.py (C10); "
